@@ -24,6 +24,7 @@ import errno
 import functools
 import gzip
 import os
+import signal
 import ssl
 import zlib
 
@@ -150,46 +151,42 @@ def http_argv(db, directory, robots=False, extra=()):
 
 # ------------------------------------------------------------------ FTP server script
 class FtpScript(object):
-    """Scripted FTP server.  files: {name: bytes}; hostile: dict describing the misbehaviour for file `hname`.
+    """Scripted FTP server.  files: {name: bytes} in the root directory; dirs: names of sub-directories;
+    listings: {path: bytes} overrides the LIST payload of a directory.
 
-    hostile = {'at': <command name or 'greet'|'data'|'end'>, 'do': ..., 'when': 'target'|'parent'|'always'}
-      do: ('reply', bytes)       send these bytes instead of the normal reply
+    hostile = {'at': 'greet'|<command name>|'data'|'end', 'do': ..., 'when': 'target'|'always'}
+      do: ('reply', bytes[, cuts[, 'continue']])   send these bytes instead of the normal reply; with 'continue' the
+                                                   normal flow goes on (transfer), otherwise the server does nothing more
           ('close',)             close the control connection instead of replying
-          ('data', bytes)        (at 'data') bytes sent on the data connection instead of the normal payload
-          ('dataclose',)         (at 'data') close the data connection without the final reply
-          ('refuse_data',)       PASV answers with a port nobody listens on
+          ('fail', kind)         the control connection breaks: the pending read raises an exception of that kind
+          ('data', bytes[, cuts])   (at 'data') bytes sent on the data connection instead of the normal payload
+          ('dataclose',)         (at 'data') close the data connection and never send the final reply
+          ('datafail', kind)     (at 'data') the data connection breaks with an exception of that kind
+          ('refuse_data',)       (at 'PASV') answer with a port nobody listens on
     """
-    def __init__(self, run, files, hname, hostile=None, listing=None, dirs=()):
+    def __init__(self, run, files, dirs=(), listings=None, hostile=None):
         self.run = run
         self.files = files
-        self.hname = hname
-        self.hostile = hostile or {}
-        self.listing = listing
         self.dirs = dirs
+        self.listings = listings or {}
+        self.hostile = hostile or {}
         self.log = []
         self.data_eps = []
-        self.pending_data = None
         self.greets = 0
 
-    def on_target(self):
-        return self.run.target_active
-
-    def hostile_at(self, at, arg=''):
+    def hostile_at(self, at):
         h = self.hostile
         if not h or h.get('at') != at:
             return None
-        when = h.get('when', 'target')
-        if when == 'always':
-            return h['do']
-        if when == 'path':
-            return h['do'] if h.get('path') == arg else None
-        if when == 'target' and self.on_target():
+        if h.get('when', 'target') == 'always' or self.run.target_active:
             return h['do']
         return None
 
-    def default_listing(self):
-        if self.listing is not None:
-            return self.listing
+    def listing(self, path):
+        if path in self.listings:
+            return self.listings[path]
+        if path.rstrip('/') != '':
+            return b''
         lines = []
         for d in self.dirs:
             lines.append('drwxr-xr-x 2 ftp ftp 4096 Jan 01  2020 %s' % d)
@@ -202,29 +199,26 @@ class FtpControl(fakenet.BaseServer):
     def __init__(self, script, ep):
         self.s = script
         self.buf = b''
-        self.dep = None
 
-    def reply(self, ep, at, normal, arg=''):
-        h = self.s.hostile_at(at, arg)
-        if h is None:
+    def reply(self, ep, at, normal):
+        """Send the reply for protocol point `at`; returns True if the normal flow continues."""
+        h = self.s.hostile_at(at)
+        if h is None or h[0] in ('data', 'dataclose', 'datafail', 'refuse_data'):
             ep.send(normal)
             return True
         self.s.log.append((at, h[0]))
         if h[0] == 'reply':
             ep.send(h[1], cuts=h[2] if len(h) > 2 else None)
-            return h[1][:1] in b'123' and len(h) <= 3
-        if h[0] == 'reply_then_close':
-            ep.send(h[1])
-            ep.close()
-            return False
+            return len(h) > 3 and h[3] == 'continue'
         if h[0] == 'close':
             ep.close()
             return False
         if h[0] == 'fail':
-            ep.fail(h[1])
+            ep.fail(make_exc(h[1]))
+            if self.s.run.fault is not None:
+                self.s.run.fault_fired += 1
             return False
-        ep.send(normal)
-        return True
+        raise ValueError(h)
 
     def on_connect(self, ep):
         self.s.greets += 1
@@ -251,9 +245,9 @@ class FtpControl(fakenet.BaseServer):
         elif name == 'SIZE':
             n = arg.rsplit('/', 1)[-1]
             if n in s.files:
-                self.reply(ep, 'SIZE', ('213 %d\r\n' % len(s.files[n])).encode(), arg)
+                self.reply(ep, 'SIZE', ('213 %d\r\n' % len(s.files[n])).encode())
             else:
-                self.reply(ep, 'SIZE', b'550 no\r\n', arg)
+                self.reply(ep, 'SIZE', b'550 no\r\n')
         elif name == 'PASV':
             h = s.hostile_at('PASV')
             if h is not None and h[0] == 'refuse_data':
@@ -262,22 +256,22 @@ class FtpControl(fakenet.BaseServer):
             else:
                 self.reply(ep, 'PASV', b'227 Entering Passive Mode (10,0,0,3,4,1)\r\n')
         elif name == 'MLSD':
-            self.reply(ep, 'MLSD', b'500 unknown\r\n', arg)
+            self.reply(ep, 'MLSD', b'500 unknown\r\n')
         elif name in ('LIST', 'RETR'):
             dep = s.data_eps[-1] if s.data_eps else None
             if name == 'LIST':
-                payload = s.default_listing()
+                payload = s.listing(arg)
                 ok = True
             else:
                 n = arg.rsplit('/', 1)[-1]
                 ok = n in s.files
                 payload = s.files.get(n, b'')
             if not ok:
-                self.reply(ep, name, b'550 no such file\r\n', arg)
+                self.reply(ep, name, b'550 no such file\r\n')
                 return
-            if not self.reply(ep, name, b'150 here it comes\r\n', arg):
+            if not self.reply(ep, name, b'150 here it comes\r\n'):
                 return
-            h = s.hostile_at('data', arg)
+            h = s.hostile_at('data')
             if h is not None:
                 s.log.append(('data', h[0]))
             if dep is not None:
@@ -288,12 +282,14 @@ class FtpControl(fakenet.BaseServer):
                     dep.close()
                     return
                 elif h is not None and h[0] == 'datafail':
-                    dep.fail(h[1])
+                    dep.fail(make_exc(h[1]))
+                    if s.run.fault is not None:
+                        s.run.fault_fired += 1
                     return
                 else:
                     dep.send(payload)
                     dep.close()
-            self.reply(ep, 'end', b'226 done\r\n', arg)
+            self.reply(ep, 'end', b'226 done\r\n')
         elif name == 'REST':
             self.reply(ep, 'REST', b'350 ok\r\n')
         elif name == 'QUIT':
@@ -308,13 +304,17 @@ class FtpData(fakenet.BaseServer):
         script.data_eps.append(ep)
 
 
-def ftp_argv(db, directory, start='ftp://f.test/', extra=()):
-    return [start, '-q', '--database', db, '-P', directory, '--waitretry', '0', '--tries', '1', '-r', '--timeout', '30',
-            '--html-parser', 'html5lib', '--no-robots'] + list(extra)
+def ftp_argv(db, directory, start=('ftp://f.test/',), extra=()):
+    return list(start) + ['-q', '--database', db, '-P', directory, '--waitretry', '0', '--tries', '1', '-r', '--timeout', '30',
+            '--html-parser', 'html5lib', '--no-robots', '--no-check-certificate'] + list(extra)
 
 
 # ------------------------------------------------------------------ the run
 FINAL = ('done', 'error', 'skipped')
+
+
+class Livelock(BaseException):
+    pass
 
 
 class _Patch(object):
@@ -350,6 +350,10 @@ class FaultNet(_BaseNet):
 
     async def _open(self, conn):
         addr = (conn.address[0], conn.address[1])
+        if not 0 <= addr[1] <= 65535:
+            # what socket.connect does with such a port (checked against the real Connection on a real event loop by
+            # drivers/errorflow.py: probe_real_connect); the in-memory network has no sockets
+            raise OverflowError('connect(): port must be 0-65535.')
         f = self.connect_fault.get(addr)
         if f is not None:
             e = f()
@@ -359,7 +363,18 @@ class FaultNet(_BaseNet):
                 await fut
                 self.log.append(('connect-fault', addr))
                 raise e
-        return await _BaseNet._open(self, conn)
+        reader, writer = await _BaseNet._open(self, conn)
+        # a real transport that is closed by its owner wakes the reader (connection_lost -> feed_eof): without this a
+        # read that Connection's CloseTimer gave up on would stay parked for ever
+        ep = self.endpoints[-1]
+        orig_close = ep._client_close
+
+        def client_close():
+            orig_close()
+            if not reader._eof:
+                reader.feed_eof()
+        ep._client_close = client_close
+        return reader, writer
 
 
 class HRun(CrawlRun):
@@ -383,6 +398,8 @@ class HRun(CrawlRun):
         CrawlRun.answer(self, idx)
         if d.get('fail') is not None:
             ep.fail(make_exc(d['fail']) if isinstance(d['fail'], str) else d['fail'])
+            if self.fault is not None:
+                self.fault_fired += 1
 
     def uid(self, url):
         if url == self.target_url:
@@ -390,7 +407,13 @@ class HRun(CrawlRun):
         return CrawlRun.uid(self, url)
 
     # ---- observation
+    _last_ftp_download_exc = None
+
     def note(self, point, exc):
+        if point == 'ftp.download' and exc is not None:
+            self._last_ftp_download_exc = exc
+        if point == 'ftp.download_listing' and exc is not None and exc is self._last_ftp_download_exc:
+            return      # download_listing calls download: the same exception passing through is one observation
         self.obs.append({'p': point, 'k': kind_of(exc) if exc is not None else 'none', 't': bool(self.target_active),
                          'msg': ('%s: %s' % (type(exc).__name__, exc))[:200] if exc is not None else ''})
 
@@ -490,7 +513,7 @@ class HRun(CrawlRun):
             self.net.connect_fault[(B_IP, 80)] = self.fire
         elif site == 'f_connect':
             self.net.connect_fault[(F_IP, 21)] = self.fire
-        elif site == 'f_data_connect':
+        elif site in ('f_data_connect', 'fp_data_connect'):
             self.net.connect_fault[(F_IP, FTP_DATA_PORT)] = self.fire
         elif site in ('h_status_parse', 'r_status_parse'):
             self._oneshot(hreq.Response, 'parse_status_line')
@@ -517,14 +540,15 @@ class HRun(CrawlRun):
         elif site == 'h_child_url_parse':
             self._oneshot(wurl.URLInfo, 'parse', when=lambda *a, **k: run.in_scrape_post)
         elif site == 'f_reply_parse':
-            self._oneshot(freq.Reply, 'parse')
-        elif site == 'f_pasv_parse':
+            self._oneshot(freq.Reply, 'parse', when=lambda s_, data: data.startswith(b'200'))
+        elif site in ('f_pasv_parse', 'fp_pasv_parse'):
             self._oneshot(futil, 'parse_address')
-        elif site == 'f_listing_parse':
+        elif site in ('f_listing_parse', 'fp_listing_parse'):
             self._oneshot(fls.ListingParser, 'parse_input')
         elif site in ('h_scrape_double', 'h_hdr_readline', 'h_body_read', 'h_chunk_hdr_readline', 'h_chunk_body_read',
                       'h_chunk_nl_readline', 'h_trailer_readline', 'r_hdr_readline', 'r_body_read',
-                      'f_reply_readline', 'f_data_read', 'f_end_readline', 'f_add_links'):
+                      'f_reply_readline', 'f_data_read', 'f_end_readline', 'f_add_links', 'fp_reply_readline',
+                      'fp_data_read'):
             pass        # armed elsewhere (network script / scraper double / see build())
         else:
             raise ValueError('unknown fault site %r' % site)
@@ -594,18 +618,58 @@ class HRun(CrawlRun):
                 finally:
                     run.in_scrape_post = False
             self.patch.set(ProcessingRule, '_process_scrape_info', psi)
-            self.patch.set(ProcessingRule, 'parse_url', staticmethod(
-                lambda url, encoding='utf-8': __import__('wpull.url').url.parse_url_or_log(url, encoding)))
         if self.fault is not None and self.fault['site'] == 'f_add_links':
             from wpull.processor.ftp import FTPProcessorSession
             self._oneshot(FTPProcessorSession, '_add_listing_links')
         return app
 
+    VTIME_LIMIT = 20000.0       # virtual seconds: a crawl of three URLs with --timeout 30 is long over by then
+    CPU_LIMIT = 20              # CPU seconds (ITIMER_PROF): a busy loop in the code under test becomes an observation
+
     def execute(self):
+        from harness import vloop
+        old = os.getcwd()
+        if self.cwd:
+            os.chdir(self.cwd)
+
+        def on_alarm(signum, frame):
+            raise Livelock('cpu')
+
+        def tick():
+            loop = asyncio.get_event_loop()
+            if loop.time() > self.VTIME_LIMIT:
+                raise Livelock('virtual time')
+        old_handler = signal.signal(signal.SIGPROF, on_alarm)
+        signal.setitimer(signal.ITIMER_PROF, self.CPU_LIMIT)
         try:
-            return CrawlRun.execute(self)
+            self.log(e='start', run=self.run_no)
+            try:
+                app = self.build()
+                kind, val = vloop.run(lambda: app.run(), self.env_step, env_before_timer=True, tick_hook=tick)
+            except Livelock as e:
+                kind, val = 'hang', None
+                self.livelock = str(e)
+            if kind == 'ok':
+                self.log(e='exit', code=int(val))
+            elif kind == 'exc' and isinstance(val, Livelock):
+                kind = 'hang'
+                self.livelock = str(val)
+                self.log(e='hang', pending=len(self.pending), livelock=self.livelock)
+            elif kind == 'exc':
+                self.log(e='exit', code=-1, exc='%s: %s' % (type(val).__name__, val))
+            else:
+                self.log(e='hang', pending=len(self.pending), livelock=getattr(self, 'livelock', ''))
+            self.outcome = kind
+            self.exit_code = val if kind == 'ok' else None
         finally:
+            signal.setitimer(signal.ITIMER_PROF, 0)
+            signal.signal(signal.SIGPROF, old_handler)
+            os.chdir(old)
             self.patch.restore()
+            if self.trace_fd is not None:
+                os.close(self.trace_fd)
+                self.trace_fd = None
+        return self.ev
 
 
 def summarize(run, rows, urls_of_interest):
